@@ -1,10 +1,10 @@
 SPECIFICATION Spec
 CONSTANTS
-  Chunks <- LitChunks
+  Chunks <- PrefixChunks
   MaxLen = 4
   MinLen = 0
-  Variants = {"plain", "splice", "splice2", "bcmt", "bcmtnl", "lcmt"}
-  VarLen = 2
+  Variants = {"plain"}
+  VarLen = 0
   Mode = "alpha"
   PerturbChars = {}
   Devs = {"NoDigraphs", "NoUCNIdent", "NoUCNEscape"}
